@@ -30,9 +30,9 @@ import (
 type rootKind uint8
 
 const (
-	rParamTop rootKind = iota
-	rParamL1   // exactly one load below the parameter's object
-	rParamDeep // two or more loads
+	rParamTop  rootKind = iota
+	rParamL1            // exactly one load below the parameter's object
+	rParamDeep          // two or more loads
 	rGlobal
 	rSite
 	rExt
@@ -727,7 +727,7 @@ var extFresh = map[string]bool{
 	"google.golang.org/protobuf/types/known/timestamppb.New": false,
 	"google.golang.org/protobuf/types/known/timestamppb.Now": false,
 	"google.golang.org/protobuf/proto.Clone":                 false,
-	"strings.Split": false, "strings.Fields": false, "fmt.Sprintf": false, "fmt.Errorf": false, "errors.New": false,
+	"strings.Split":                                          false, "strings.Fields": false, "fmt.Sprintf": false, "fmt.Errorf": false, "errors.New": false,
 	"strings.Repeat": false, "context.WithValue": true, "context.Background": false,
 	"github.com/CycloneDX/cyclonedx-go.NewBOM": false, "github.com/CycloneDX/cyclonedx-go.NewBOMEncoder": true,
 	"github.com/CycloneDX/cyclonedx-go.NewBOMDecoder": true, "encoding/json.NewDecoder": true, "encoding/json.NewEncoder": true,
